@@ -8,6 +8,7 @@
 -/
 import EEM.Real
 import EEM.Model.Metrics
+import EEM.Model.CaltrackMetrics
 import EEM.Gen.MetricFormulas
 import EEM.Bridge.Corr
 import Mathlib.Tactic.Linarith
@@ -387,5 +388,95 @@ example : 0 < ((pred [((1:ℝ), (2:ℝ)), (3, 2), (2, 4)]).map fun x =>
   unfold pred
   simp only [List.map_cons, List.map_nil, List.sum_cons, List.sum_nil]
   nlinarith
+
+/-! ### The CalTRACK-hourly `ModelMetrics` (hand model `EEM.Model.CaltrackMetrics`) -/
+
+open EEM.Model
+
+/-- the sign convention of the residuals does not matter for the squared error:
+`ModelMetrics` (predicted − observed) and `BaselineMetrics` (observed − predicted) have the same SSE, hence RMSE -/
+theorem C16_ct_sse_is_sse (ps : List (ℝ × ℝ)) : CaltrackMetrics.sseOf ps = sse ps := by
+  unfold CaltrackMetrics.sseOf CaltrackMetrics.residPO sse resid
+  simp only [List.map_map]
+  congr 1
+  apply List.map_congr_left
+  intro q _
+  simp only [Function.comp, mul_eq, sub_eq]
+  ring
+
+theorem C16_ct_rmse_is_rmse (ps : List (ℝ × ℝ)) : CaltrackMetrics.rmse ps = rmse ps := by
+  unfold CaltrackMetrics.rmse rmse mse
+  rw [C16_ct_sse_is_sse]
+
+/-- **CalTRACK CVRMSE is the textbook RMSE / mean(observed) exactly when no observed value is negative**
+(the class divides by the mean of the ABSOLUTE values) -/
+theorem C16_ct_cvrmse_textbook_of_nonneg (ps : List (ℝ × ℝ)) (h : ∀ q ∈ ps, 0 ≤ q.1) :
+    CaltrackMetrics.cvrmse ps = rmse ps / mean (obs ps) := by
+  unfold CaltrackMetrics.cvrmse CaltrackMetrics.observedMeanAbs
+  rw [C16_ct_rmse_is_rmse]
+  have : (obs ps).map Arith.abs = obs ps := by
+    unfold obs
+    rw [List.map_map]
+    apply List.map_congr_left
+    intro q hq
+    simp only [Function.comp, arith_abs]
+    exact abs_of_nonneg (h q hq)
+  rw [this]
+
+/-- … and it is NOT for a net-metered series: two hours, one exporting (witness of finding C16-F4) -/
+example :
+    let ps : List (ℝ × ℝ) := [(3, 2), (-1, 0)]
+    CaltrackMetrics.observedMeanAbs ps = 2 ∧ mean (obs ps) = 1 := by
+  constructor
+  · simp only [CaltrackMetrics.observedMeanAbs, mean, obs, asum, List.map, arith_abs, add_eq, div_eq, arith_ofNat, ofNat_eq,
+      List.length_cons, List.length_nil]
+    norm_num [abs_of_nonneg, abs_of_neg]
+  · simp only [mean, obs, asum, List.map, add_eq, div_eq, arith_ofNat, ofNat_eq, List.length_cons, List.length_nil]
+    norm_num
+
+/-- **the autocorrelation-corrected n is the textbook one exactly when every observed value has a prediction**:
+`n_prime` scales with `observed_length`, the statistics with the joined rows -/
+theorem C16_ct_nprime_textbook_of_equal_lengths (rows : List (Option ℝ × Option ℝ))
+    (h : CaltrackMetrics.observedLength rows = (CaltrackMetrics.merged rows).length) :
+    CaltrackMetrics.nPrime rows = CaltrackMetrics.nPrimePairs rows := by
+  unfold CaltrackMetrics.nPrime CaltrackMetrics.nPrimePairs
+  rw [h]
+
+/-- the joined rows never outnumber the observed values, so `n_prime` can only be too LARGE (finding C16-F3) -/
+theorem C16_ct_merged_le_observed (rows : List (Option ℝ × Option ℝ)) :
+    (CaltrackMetrics.merged rows).length ≤ CaltrackMetrics.observedLength rows := by
+  unfold CaltrackMetrics.merged CaltrackMetrics.observedLength finitePairs
+  induction rows with
+  | nil => simp
+  | cons r rs ih =>
+    obtain ⟨a, b⟩ := r
+    cases a <;> cases b <;> simp [List.filterMap_cons, List.filter_cons] <;> omega
+
+/-- every observed value has a prediction when the predicted series has no gap -/
+theorem C16_ct_equal_lengths_of_full_prediction (rows : List (Option ℝ × Option ℝ)) (h : ∀ r ∈ rows, r.2.isSome) :
+    CaltrackMetrics.observedLength rows = (CaltrackMetrics.merged rows).length := by
+  unfold CaltrackMetrics.merged CaltrackMetrics.observedLength finitePairs
+  induction rows with
+  | nil => simp
+  | cons r rs ih =>
+    obtain ⟨a, b⟩ := r
+    have hb : b.isSome := h (a, b) (by simp)
+    have ih' := ih (fun r hr => h r (List.mem_cons_of_mem _ hr))
+    cases a <;> cases b <;> simp_all [List.filterMap_cons, List.filter_cons]
+
+/-- **rmse_adj² · (n − k) = sse** when there are more rows than parameters (otherwise the class reports NaN) -/
+theorem C16_ct_rmse_adj (ps : List (ℝ × ℝ)) (k : Nat) (h : k < ps.length) :
+    ∃ r, CaltrackMetrics.rmseAdj ps k = some r ∧ r ^ 2 * ((ps.length - k : Nat) : ℝ) = sse ps := by
+  have hd : (0 : ℝ) < ((ps.length - k : Nat) : ℝ) := by exact_mod_cast Nat.sub_pos_of_lt h
+  refine ⟨Real.sqrt (sse ps / ((ps.length - k : Nat) : ℝ)), ?_, ?_⟩
+  · unfold CaltrackMetrics.rmseAdj
+    rw [if_pos h]
+    simp only [carrier_sqrt, div_eq, arith_ofNat, C16_ct_sse_is_sse]
+  · rw [Real.sq_sqrt (div_nonneg (sse_nonneg ps) hd.le)]
+    field_simp
+
+theorem C16_ct_rmse_adj_undefined (ps : List (ℝ × ℝ)) (k : Nat) (h : ps.length ≤ k) :
+    CaltrackMetrics.rmseAdj ps k = none := by
+  simp [CaltrackMetrics.rmseAdj]; omega
 
 end EEM.Props.C16
